@@ -59,7 +59,7 @@ def stage_generate(job, work, binary, flags, seed, variant):
     """TLC exploration + harness execution for one (kind, instance); fills job in place."""
     kind, inst = job['kind'], job['inst']
     kd = KINDS[kind]
-    tag = inst['name'] + ('' if variant == ('tracked', 'std') else '-%s-%s' % variant) + ('-nocb' if job.get('nocb') else '')
+    tag = inst['name'] + ('' if variant == ('tracked', 'std') else '-%s-%s' % variant) + ('-nocb' if job.get('nocb') else '') + ('-clone' if job.get('clone_mode') else '')
     job['tag'] = tag
     if job.get('random_only'):
         drv = vlib.tlc_ops_only(kd['mc'], inst['mc'], work.dir, tag + '-ops')
@@ -248,6 +248,16 @@ def run_list_prop(prop, tier, seed, only_kinds=None, harness_variant='std', coll
                 if j['kind'] == 'raw' and j['variant'] == ('tracked', 'std') and (j.get('random_only') or j['inst'] is INSTANCES['raw'][tier][0]):
                     extra_jobs.append(dict(j, nocb=True))
             jobs += extra_jobs
+        if prop == 'C01' and not inst_limit and harness_variant == 'std' and collect is None:
+            # a clone is a cache too: the clone-mode traces (clone in every state, then the same operation on both) are
+            # judged with C01 on BOTH observations; first closure instance + one larger random instance per cloneable type
+            for k in ('raw', 'slru', 'wtlfu'):
+                if k in kinds:
+                    jobs.append(dict(kind=k, inst=INSTANCES[k][tier][0], variant=('tracked', 'std'), clone_mode=True,
+                                     quick_max_states=400 if tier == 'quick' else 3000))
+                    ro = [r for r in RANDOM_ONLY[tier] if r['kind'] == k]
+                    if ro:
+                        jobs.append(dict(kind=k, inst=ro[min(1, len(ro) - 1)], variant=('tracked', 'std'), random_only=True, clone_mode=True))
         if spec.get('fault_big') and not inst_limit:
             # panic injection in LARGE states: the state is reached by a seeded random history (it is the path), see exec.rs
             from instances import FAULT_BIG
@@ -263,7 +273,7 @@ def run_list_prop(prop, tier, seed, only_kinds=None, harness_variant='std', coll
             apa_pool = ThreadPoolExecutor(max_workers=5)
             apa_future = [apa_pool.submit(vlib.apalache_inductive, vlib.LEN_MODULES[k][0], vlib.LEN_MODULES[k][1], work.dir) for k in kinds]
             tlaps_future = [apa_pool.submit(vlib.tlaps_prove, vlib.LEN_MODULES[k][0], work.dir) for k in kinds]
-        vlib.pool_map(lambda j: stage_generate(j, work, binary, flags, seed, j['variant']), jobs, 4)
+        vlib.pool_map(lambda j: stage_generate(j, work, binary, flags + (['--clone', '--no-ro'] if j.get('clone_mode') else []), seed, j['variant']), jobs, 4)
         crashes = []
         for j in jobs:
             if j['exec']['rc'] != 0:
